@@ -145,6 +145,18 @@ class Conn:
     def poll(self, timeout=None):
         me = self._me()
         if me is None:
+            # the main task polls: if nothing has arrived yet, time passes -- one runnable worker gets to run
+            if not self.inbox:
+                runnable = [t for t in self.sched.tasks if t.runnable()]
+                if runnable:
+                    self.sched._run_one(runnable)
+                    if self.sched.error is not None:
+                        err, self.sched.error = self.sched.error, None
+                        raise err
+                else:
+                    self.sched.idle_polls = getattr(self.sched, "idle_polls", 0) + 1
+                    if self.sched.idle_polls > 1000:
+                        raise RuntimeError("deadlock: main keeps polling an empty pipe and no worker can run")
             return len(self.inbox) > 0
         if not self.inbox:
             # blocked until a message arrives or the shutdown event is set (the worker re-checks it)
